@@ -528,7 +528,7 @@ CONTROLS = [
     ("ucb variance as mean of squares minus squared mean", "coba/learners/bandit.py", M.replace_expr("BanditUCBLearner._Var_R_UCB", "self._v[action].variance", "self._v[action].variance - self._m[action] ** 2"), "C16.R10"),
     ("uniform draws reach 1.0", "coba/random.py", M.replace_expr("CobaRandom._next_uniform", "s / m", "s / m_1"), "C16.R8"),
     ("uniform mass added per learner without dividing by M", "coba/learners/corral.py", M.replace_expr("CorralLearner.learn", "(1 - self._gamma) * p + self._gamma * 1 / len(self._base_lrns)", "(1 - self._gamma) * p + self._gamma"), "C16.R9"),
-    ("sampler bisects to the left", "coba/random.py", M.replace_expr("CobaRandom.choice", "next(compress(seq, map((next(self._randu) * tot).__lt__, accumulate(weights))))",
+    ("sampler bisects to the left", "coba/random.py", M.replace_expr("CobaRandom.choice", "next(compress(seq, map(partial(lt, next(self._randu) * tot), accumulate(weights))))",
                                                                     "seq[bisect_left(list(accumulate(weights)), next(self._randu) * tot)]"), "C16.R8"),
     ("make_hashable tests builtin types", "coba/learners/bandit.py", M.chain(M.replace_expr("make_hashable", "isinstance(item, Dense)", "isinstance(item, (list, tuple))"),
                                                                             M.replace_expr("make_hashable", "isinstance(item, Sparse)", "isinstance(item, dict)")), "C16.R6"),
